@@ -969,3 +969,23 @@ Corollary nest_typed_wfw : forall w r k arr, wfw w -> wfw (fst (nest_typed w r k
 Proof. intros w r k arr W. destruct (nest_typed_is_run w r k arr) as (ops & ->). now apply run_wfw. Qed.
 Corollary doc_move_wfw : forall w d s, wfw w -> wfw (fst (doc_move w d s)).
 Proof. intros w d s W. rewrite doc_move_is_run. now apply run_wfw. Qed.
+
+Lemma get_or_add_level_is_run : forall w r p, exists ops, fst (get_or_add_level w r p) = run w ops.
+Proof.
+  intros w r p. unfold get_or_add_level. destruct (get_level w r p) as [e|].
+  - exists []. reflexivity.
+  - exists [create_op r p]. reflexivity.
+Qed.
+Theorem proxy_assign_is_run : forall w r1 p1 r2 p2, exists ops, fst (proxy_assign w r1 p1 r2 p2) = run w ops.
+Proof.
+  intros w r1 p1 r2 p2. unfold proxy_assign.
+  destruct (get_or_add_level_is_run w r1 p1) as (ops & H).
+  destruct (get_or_add_level w r1 p1) as [w1 dst]. cbn [fst] in H. subst w1.
+  destruct dst as [d|].
+  - destruct (get_level (run w ops) r2 p2) as [s|].
+    + exists (ops ++ [OAssign d s]). rewrite run_app. reflexivity.
+    + exists (ops ++ [OSet d SNull]). rewrite run_app. reflexivity.
+  - exists ops. reflexivity.
+Qed.
+Corollary proxy_assign_wfw : forall w r1 p1 r2 p2, wfw w -> wfw (fst (proxy_assign w r1 p1 r2 p2)).
+Proof. intros w r1 p1 r2 p2 W. destruct (proxy_assign_is_run w r1 p1 r2 p2) as (ops & ->). now apply run_wfw. Qed.
